@@ -454,11 +454,11 @@ Proof.
     unfold delete_nth_ev. rewrite NDEBUG_0. cbn [andb]. rewrite (count_sound h Hwf Hs).
     destruct (Z.ltb_spec (index_of n (expand h)) 0); [lia|].
     destruct (Z.ltb_spec (Z.of_nat (length (expand h))) (index_of n (expand h))); [lia|]. cbn [orb].
-    destruct (delete_loop_sound h1 (Z.to_nat (index_of n (expand h))) 0%Z 0%Z Hw1) as (h' & ev & H1 & H2 & H3);
+    destruct (delete_loop_sound h1 (Z.to_nat (index_of n (expand h))) 0%Z 0%Z Hw1) as (h' & ev & Hd1 & Hd2 & Hd3);
       try (rewrite ?He; unfold small in Hs; lia).
-    replace (0 + Z.of_nat (Z.to_nat (index_of n (expand h))))%Z with (index_of n (expand h)) in H1 by lia.
-    rewrite H1. cbn [bind fst snd]. exists 1%Z, h'. split; [reflexivity|]. split; [assumption|].
-    left. rewrite H2, He. auto.
+    replace (0 + Z.of_nat (Z.to_nat (index_of n (expand h))))%Z with (index_of n (expand h)) in Hd1 by lia.
+    rewrite Hd1. cbn [bind fst snd]. exists 1%Z, h'. split; [reflexivity|]. split; [assumption|].
+    left. rewrite Hd2, He. auto.
   - rewrite (index_of_notin n _ Hnin). cbn [Z.leb bind fst]. exists 0%Z, h1. split; [reflexivity|]. split; [assumption|].
     right. auto.
 Qed.
